@@ -211,7 +211,13 @@ fn join_loop_job(n: usize, m: usize, kt: KeyTy, pl: Payload, dom_size: usize) ->
 }
 
 /// `dom` is sorted here (ascending by the harness's own key order)
-fn join_loop_job_dom(n: usize, m: usize, kt: KeyTy, pl: Payload, mut dom: Vec<Val>) -> Job {
+fn join_loop_job_dom(n: usize, m: usize, kt: KeyTy, pl: Payload, dom: Vec<Val>) -> Job {
+    join_loop_job_inv(n, m, kt, pl, dom, false)
+}
+
+/// `invariant`: the failing operation of the body does not depend on the joined rows (`100 / d` with a
+/// third parameter d): its panic condition is the same gate in every window of the merged sequence
+fn join_loop_job_inv(n: usize, m: usize, kt: KeyTy, pl: Payload, mut dom: Vec<Val>, invariant: bool) -> Job {
     dom.sort_by_key(|v| match v {
         Val::Int(x, _) => *x,
         _ => 0,
@@ -245,13 +251,17 @@ fn join_loop_job_dom(n: usize, m: usize, kt: KeyTy, pl: Payload, mut dom: Vec<Va
             vec![
                 assign("out", vec![Acc::Index(var("cnt"))], tup(vec![tupf(var("x"), 0), xa1, tupf(var("y"), 1)])),
                 assign("cnt", vec![], bin(BinOp::Add, var("cnt"), lit_usize(1))),
-                assign("acc", vec![], bin(BinOp::BitXor, var("acc"), bin(BinOp::Div, lit(100, pb_int), tupf(var("y"), 1)))),
+                assign("acc", vec![], bin(BinOp::BitXor, var("acc"), bin(BinOp::Div, lit(100, pb_int), if invariant { var("d") } else { tupf(var("y"), 1) }))),
             ],
         )),
         expr_stmt(tup(vec![var("out"), var("cnt"), var("acc")])),
     ];
+    let mut params = vec![("a", Ty::arr(ea, n)), ("b", Ty::arr(eb, m))];
+    if invariant {
+        params.push(("d", pb.clone()));
+    }
     let prog = Program::simple_main(
-        vec![("a", Ty::arr(ea, n)), ("b", Ty::arr(eb, m))],
+        params,
         Ty::Tup(vec![Ty::arr(out_elem, c), Ty::usize(), pb.clone()]),
         body,
     );
@@ -259,7 +269,8 @@ fn join_loop_job_dom(n: usize, m: usize, kt: KeyTy, pl: Payload, mut dom: Vec<Va
     let mut inputs = vec![];
     for sa in subsets(dom.len(), n) {
         for sb in subsets(dom.len(), m) {
-            for zero_at in std::iter::once(None).chain((0..m).map(Some)) {
+            let zero_positions: Vec<Option<usize>> = if invariant { vec![None, Some(usize::MAX)] } else { std::iter::once(None).chain((0..m).map(Some)).collect() };
+            for zero_at in zero_positions {
                 let a = Val::Arr(
                     sa.iter()
                         .enumerate()
@@ -281,11 +292,15 @@ fn join_loop_job_dom(n: usize, m: usize, kt: KeyTy, pl: Payload, mut dom: Vec<Va
                         })
                         .collect(),
                 );
-                inputs.push(vec![a, b]);
+                if invariant {
+                    inputs.push(vec![a, b, Val::Int(if zero_at.is_some() { 0 } else { 3 }, pb_int)]);
+                } else {
+                    inputs.push(vec![a, b]);
+                }
             }
         }
     }
-    Job { family: "J", site: format!("J/loop/{:?}/{:?}/n{}m{}", kt, pl, n, m), prog, inputs: Arc::new(inputs) }
+    Job { family: "J", site: format!("J/loop{}/{:?}/{:?}/n{}m{}", if invariant { "-invariant-divisor" } else { "" }, kt, pl, n, m), prog, inputs: Arc::new(inputs) }
 }
 
 // ---------------------------------------------------------------------------------------------
@@ -492,6 +507,12 @@ pub fn run(tier: Tier) -> i32 {
                     jobs.push(join_loop_job(n, m, kt, pl, dom));
                 }
             }
+        }
+    }
+    // a failing operation that does not depend on the joined rows
+    for n in 1..=tier.pick(3usize, 4usize) {
+        for m in 1..=tier.pick(3usize, 4usize) {
+            jobs.push(join_loop_job_inv(n, m, KeyTy::U8, Payload::U8U8, key_domain(KeyTy::U8).into_iter().take(dom).collect(), true));
         }
     }
     // the key comparator: keys that differ in one bit position / lie on both sides of every power of two
